@@ -720,8 +720,43 @@ func nativeRace(path string, tags string) (bool, string) {
 	return strings.Contains(s, "WARNING: DATA RACE"), s
 }
 
-// nativeBatch runs the harnesses natively (go test -overlay) on a list of replay files.
+// nativeBatch runs the harnesses natively (go test -overlay) on a list of replay files. Replay files of harnesses that live
+// in package native ("native.*") are run by a test of that package, all others by a test of package tensor.
 func nativeBatch(paths []string, tags string) (map[string]nativeResult, error) {
+	var pt, pn []string
+	for _, p := range paths {
+		var rf struct {
+			Harness string `json:"harness"`
+		}
+		if b, err := os.ReadFile(p); err == nil {
+			json.Unmarshal(b, &rf)
+		}
+		if strings.HasPrefix(rf.Harness, "native.") {
+			pn = append(pn, p)
+		} else {
+			pt = append(pt, p)
+		}
+	}
+	res := map[string]nativeResult{}
+	for _, part := range []struct {
+		paths        []string
+		sub, testSrc string
+	}{{pt, "", "replay_test.go.txt"}, {pn, "native", "native_replay_test.go.txt"}} {
+		if len(part.paths) == 0 {
+			continue
+		}
+		r, err := nativeBatchIn(part.paths, tags, part.sub, part.testSrc)
+		if err != nil {
+			return nil, err
+		}
+		for k, v := range r {
+			res[k] = v
+		}
+	}
+	return res, nil
+}
+
+func nativeBatchIn(paths []string, tags string, sub string, testName string) (map[string]nativeResult, error) {
 	om, err := overlayMap()
 	if err != nil {
 		return nil, err
@@ -731,12 +766,12 @@ func nativeBatch(paths []string, tags string) (map[string]nativeResult, error) {
 		return nil, err
 	}
 	defer os.RemoveAll(tmp)
-	testSrc := filepath.Join(harnessDir(), "native", "replay_test.go.txt")
+	testSrc := filepath.Join(harnessDir(), "native", testName)
 	repl := map[string]string{}
 	for v, r := range om {
 		repl[v] = r
 	}
-	repl[filepath.Join(repoDir, "zz_verif_replay_test.go")] = testSrc
+	repl[filepath.Join(repoDir, sub, "zz_verif_replay_test.go")] = testSrc
 	ob, _ := json.Marshal(map[string]interface{}{"Replace": repl})
 	ovf := filepath.Join(tmp, "overlay.json")
 	os.WriteFile(ovf, ob, 0o644)
@@ -746,7 +781,11 @@ func nativeBatch(paths []string, tags string) (map[string]nativeResult, error) {
 	if tags != "" {
 		args = append(args, "-tags", tags)
 	}
-	args = append(args, ".")
+	if sub == "" {
+		args = append(args, ".")
+	} else {
+		args = append(args, "./"+sub)
+	}
 	cmd := exec.Command("go", args...)
 	cmd.Dir = repoDir
 	cmd.Env = append(os.Environ(), "GOFLAGS=-mod=mod", "GOPROXY=off", "GOSUMDB=off", "GOTOOLCHAIN=local", "VERIF_BATCH="+batch)
